@@ -35,7 +35,7 @@ func newRCEnv(queueSize int, flush, readTimeout time.Duration, snappy bool, opts
 		codec = compression.New("snappy")
 	}
 	dialer := func(ctx context.Context, network, addr string) (net.Conn, error) { return pair.Client, nil }
-	rc := region.NewClient("rs1:16020", region.RegionClient, queueSize, flush, "verif", readTimeout, codec, dialer, quietLogger)
+	rc := region.NewClient("rs1:16020", region.RegionClient, queueSize, flush, "verif", readTimeout, codec, dialer, envLogger())
 	env := &rcEnv{rc: rc, pair: pair,
 		reg: region.NewInfo(1, nil, []byte("t"), []byte("t,,1"), nil, nil)}
 	if err := rc.Dial(context.Background()); err != nil {
